@@ -10,7 +10,7 @@ From GT Require Import Base.UTree Spec.NewickSpec Model.MultiTree Model.Nexus Mo
      Model.Newick Model.NewickNum Proofs.NewickCanon Proofs.NewickNumC Proofs.NexusWords Proofs.NexusRoundTrip Proofs.NexusRoundTripMain
      Proofs.NexusRoundTripC01 Proofs.NexusRoundTripTr Proofs.NexusRoundTripExample Proofs.NewickFirst Proofs.NexusRename
      Proofs.NexusNewickText Proofs.NexusDomain Proofs.NexusProperty Proofs.NexusTranslate Proofs.NexusPrinted
-     Proofs.NexusTranslateProperty Proofs.C13Property Proofs.C13PropertyExample.
+     Proofs.NexusTranslateProperty Proofs.C13Property Proofs.C13PropertyExample Proofs.MultiTreeList Proofs.MultiTreeListMore.
 Import ListNotations.
 Local Close Scope Q_scope.
 Local Open Scope string_scope.
@@ -97,12 +97,12 @@ Print Assumptions C13_nextstrain_first_is_head.
     three trees, two of them on one line, the second is dropped: two records, ids 0 and 1, no
     error (open finding C13-newick-two-trees-one-line).  One tree per line: all delivered. *)
 Theorem C13_newick_none_skipped_refuted :
-  records ("(a,b);(c,d);" ++ nl ++ "(e,f);" ++ nl) = [(0, "(a,b);"); (1, "(e,f);")].
+  MultiTreeSkip.records ("(a,b);(c,d);" ++ nl ++ "(e,f);" ++ nl) = [(0, "(a,b);"); (1, "(e,f);")].
 Proof. exact two_trees_one_line_skips. Qed.
 Print Assumptions C13_newick_none_skipped_refuted.
 
 Theorem C13_newick_one_per_line_example :
-  records ("(a,b);" ++ nl ++ "(c,d);" ++ nl ++ "(e,f);" ++ nl) = [(0, "(a,b);"); (1, "(c,d);"); (2, "(e,f);")].
+  MultiTreeSkip.records ("(a,b);" ++ nl ++ "(c,d);" ++ nl ++ "(e,f);" ++ nl) = [(0, "(a,b);"); (1, "(c,d);"); (2, "(e,f);")].
 Proof. exact one_tree_per_line_delivers_all. Qed.
 Print Assumptions C13_newick_one_per_line_example.
 
@@ -375,3 +375,89 @@ Example C13_domain_inhabited :
   Forall (fun it => c13_domain numericC numokC (labels_of ex_list) (snd it)) ex_list.
 Proof. exact ex_domain. Qed.
 Print Assumptions C13_domain_inhabited.
+
+(** * every tree of a multi-tree Newick file is delivered, in order, with consecutive ids.
+    A file of trees inside C01's quantifier written one per line, each followed by any blanks
+    and tabs; [chunked line pieces]: the buffered reader hands the line over in k >= 1 pieces
+    (whatever the buffer size; LF / CRLF are stripped by ReadLine).  After the reader fix
+    b303e0a there is no side condition on lengths. *)
+Theorem C13_multi_list_delivered :
+  forall (fmt : Q -> string) (numeric : string -> bool) (parse_num : string -> option Q) (numok : Q -> bool),
+    strconv_ok fmt numeric parse_num numok ->
+    forall (l : list (utree * string)) cs,
+      l <> [] -> Forall (line_ok numeric numok) l ->
+      Forall2 chunked (map (MultiTreeList.tree_line fmt) l) cs ->
+      read_multi (np_nw numeric parse_num) (concat cs) = MDone (MultiTreeList.records fmt parse_num 0 l).
+Proof. exact multi_list_delivered. Qed.
+Print Assumptions C13_multi_list_delivered.
+
+(** the same from the bytes of the file through the model of bufio.ReadLine, for lines that fit
+    the buffer, with LF or CRLF line ends *)
+Theorem C13_multi_file_delivered :
+  forall (fmt : Q -> string) (numeric : string -> bool) (parse_num : string -> option Q) (numok : Q -> bool),
+    strconv_ok fmt numeric parse_num numok ->
+    forall bufsz (l : list (utree * string * bool)),
+      l <> [] ->
+      Forall (fun q => line_ok numeric numok (fst q) /\
+                       short_line bufsz (MultiTreeList.tree_line fmt (fst q), snd q)) l ->
+      let text := file_text (map (fun q => (MultiTreeList.tree_line fmt (fst q), snd q)) l) in
+      read_multi (np_nw numeric parse_num) (phys_reads (S (String.length text)) bufsz text) =
+      MDone (MultiTreeList.records fmt parse_num 0 (map fst l)).
+Proof. exact multi_file_delivered. Qed.
+Print Assumptions C13_multi_file_delivered.
+
+(** any chunking of the lines gives what the whole lines give, for every parser and every file *)
+Theorem C13_multi_chunking_irrelevant :
+  forall (np : string -> utree + string) ls cs, Forall2 chunked ls cs ->
+    read_multi np (concat cs) =
+    MDone (match split_lines "" ls with
+           | [] => [MultiTree.IErr 0 "EOF"]
+           | cs' => deliver np 0 cs'
+           end).
+Proof. exact read_multi_chunked. Qed.
+Print Assumptions C13_multi_chunking_irrelevant.
+
+(** non-vacuity: two trees, trailing blank, CRLF and LF, read through a 5-byte buffer; and the
+    hypotheses of the byte-level theorem for that file with the default buffer *)
+Example C13_multi_chunked_crlf_example :
+  read_multi npC (phys_reads 64 5 (wC t_abc ++ " " ++ String "013" (String "010" "") ++ wC t_cab ++ String "010" "")) =
+  MDone [ITree 0 (canon_root fmt_go parse_numC t_abc); ITree 1 (canon_root fmt_go parse_numC t_cab)].
+Proof. exact chunked_crlf_file. Qed.
+Print Assumptions C13_multi_chunked_crlf_example.
+
+Example C13_multi_file_hypotheses_inhabited :
+  Forall (fun q => line_ok numericC numokC (fst q) /\
+                   short_line (64 * 64) (MultiTreeList.tree_line fmt_go (fst q), snd q))
+         [((t_abc, " "), true); ((t_cab, ""), false)].
+Proof. exact list_hypotheses. Qed.
+Print Assumptions C13_multi_file_hypotheses_inhabited.
+
+(** * the two open findings, characterised exactly in the models.
+    Two trees on one physical line then a third: for ALL trees inside C01's quantifier the
+    second is dropped, ids stay consecutive, no error (C13-newick-two-trees-one-line) *)
+Theorem C13_two_trees_on_one_line_refuted :
+  forall (fmt : Q -> string) (numeric : string -> bool) (parse_num : string -> option Q) (numok : Q -> bool),
+    strconv_ok fmt numeric parse_num numok ->
+    forall t1 t2 t3 bl,
+      wfN numeric numok t1 = true -> wfN numeric numok t3 = true -> all_blank bl = true ->
+      read_multi (np_nw numeric parse_num)
+                 (whole_lines [Newick.write fmt t1 ++ Newick.write fmt t2 ++ bl; Newick.write fmt t3]) =
+      MDone [ITree 0 (canon_root fmt parse_num t1); ITree 1 (canon_root fmt parse_num t3)].
+Proof. exact two_trees_on_one_line. Qed.
+Print Assumptions C13_two_trees_on_one_line_refuted.
+
+(** a list whose first tree lacks one of the taxa of the list: the Nexus parser rejects the
+    Nexus writer's output, for every Newick writer/parser (C13-nexus-taxa-union) *)
+Theorem C13_nexus_taxa_union_refuted :
+  forall (w : utree -> string) (np : string -> utree + string) (l : list (nat * utree)) id t0 r u,
+    l = (id, t0) :: r ->
+    (Z.of_nat (length (final_map l [])) < two63)%Z ->
+    Forall label_ok (labels_of l) ->
+    Forall (fun it => newick_ok (w (snd it)) = true) l ->
+    np (w t0) = inl u ->
+    forallb (fun n => mem n (labels_of l)) (tip_names u) = true ->
+    length (tips u) <> length (labels_of l) ->
+    nexus_parse np (write_nexus w false l) =
+    Nexus.PErr "Some tax names defined in TAXLABELS are not present in the tree".
+Proof. exact nexus_taxa_union_rejected. Qed.
+Print Assumptions C13_nexus_taxa_union_refuted.
